@@ -12,12 +12,17 @@ NOTES = {
  'C05': ("Mutex with thread / coroutine mixes, try_lock, a cancelled waiter; occupancy counter and split read-modify-write inside the critical section, lock free and unpoisoned at the end", "§6 C05"),
  'C06': ("mpsc / spsc / mpmc channels with thread and coroutine endpoints: recv / try_recv / recv_timeout programs, multiset + per-sender order + drop counters, every receiver finally sees Disconnected", "§6 C06"),
  'C07': ("last Sender dropped against receivers before / in / after registering (0-1 values queued, 1-2 mpmc receivers, cloned senders), Receiver dropped against senders; no hang, queued values first, values dropped once", "§6 C07"),
+ 'C08': ("timer-list component (TimerThread driven by harness threads: add / delete / expiry with equal and different intervals), sweep of every timed API x coroutine/thread context x duration alphabet {0, 1 ns, 999999 ns, 1 ms, 1 ms+1 ns, 1.5 ms, 2 ms} with nothing arriving, event-vs-timeout races with T2 clock deviations; never early, always returns, lateness <= 1 ms without clock deviations", "§6 C08"),
+ 'C09': ("a target coroutine owning tracked values blocks in park / sleep / yield / Mutex / Semphore / Condvar / RwLock read+write / SyncFlag / mpsc / mpmc / join and then in a second cancellable call; the search places cancel(); a partner issues the awaited events, a bystander shares the primitive", "§6 C09"),
  'C10': ("Semphore wait / wait_timeout / try_wait / post and SyncFlag wait / fire with threads and coroutines, cancelled waiters; prefix bound on successful waits, conservation at quiescence, latch clauses", "§6 C10"),
  'C11': ("Condvar wait / wait_while / wait_timeout vs notify_one / notify_all, forwarding of a notification by a timing-out or cancelled waiter, Barrier generations and leaders, WaitGroup", "§6 C11"),
  'C12': ("RwLock: exhaustive sequential operation sequences (read / write / try_* / guard drops / poison) against a reader-writer model plus concurrent thread / coroutine mixes in clean and poisoned state, cancelled waiters", "§6 C12"),
  'C13': ("a coroutine panics (typed payload) before / after a yield, holding a Mutex or RwLock write guard, as scoped child or select arm; cancel unwind with guards; bystanders, later spawns on the recycled stack, poison flag and release", "§6 C13"),
  'C14': ("coroutine::scope / join! / cqueue::scope with thread and coroutine owners, owner panics, owner cancelled while waiting, join! inside a losing select! arm; children watch an owner-frame liveness flag", "§6 C14"),
  'C15': ("coroutine_local! privacy across yields and migration, init-once and drop-once, thread fallback; fresh coroutine on the provably reused stack after a returned / panicked / cancelled / timed-out occupant", "§6 C15"),
+ 'C16': ("cqueue arms with ready / yield / sleep / channel-receive / panicking top halves, one-shot and two-event arms, poll(None) and poll(1 ms), Selector::remove, thread and coroutine pollers, select! against channel and sleep; per-arm top/bottom counters, Finished / Timeout clauses, nothing runs after the scope", "§6 C16"),
+ 'C17': ("real sockets, real kernel: UnixStream pairs (coroutine and thread endpoints through the proxy coroutine), payload / chunk / buffer alphabets, back-pressure over minimised socket buffers, two connections, loopback TCP accept / connect / EOF, Unix and UDP datagram boundaries; byte-exact comparison, EOF position, no hang; use-after-free detector on every hooked access", "§6 C17"),
+ 'C18': ("socket read timeouts {500 us, 1 ms, 1.5 ms} with the peer writing never / before / after the deadline, two operations on one socket (stale timer), cancel of a coroutine blocked in read / accept / recv_from with a bystander connection; exact timeout clauses, fd closed after cancel", "§6 C18"),
  'C19': ("component layer, fine: mpsc_list_v1 push vs pop / pop_if / peek / remove (head, middle, last, consumed entry), queue drop with entries left, FIFO-with-removal linearizability incl. the is_head report; exhaustive sequential sweep; mpsc_list", "§6 C19"),
 }
 checks = []
